@@ -382,7 +382,7 @@ def tail(s, n):
 def first_failure_line(out):
     for line in out.splitlines():
         s = line.strip()
-        if "VIOLATION" in s or s.startswith("panic:") or "[rapid] failed" in s:
+        if "VIOLATION" in s or "panic:" in s or "[rapid] failed" in s:
             return s[:600]
     for line in out.splitlines():
         if "_test.go:" in line:
